@@ -290,6 +290,122 @@ def check_regex(ctx, rep):
     return r
 
 
+def lookup_sources(prog):
+    """{"get_value": {capture indices}, "get_localized": {...}}: which capture groups' text reaches each of the replacer's two
+    lookups, following `caps.get(i).or_else(|| caps.get(j))...` chains and `if let Some(m) = <that>` payloads"""
+    body = None
+    for b in prog.bodies.values():
+        if b.short.endswith("as regex::Replacer>::replace_append") and b.rec["kind"] != "Closure":
+            body = b
+    if body is None:
+        return None
+
+    def closure_gets(val):
+        out = set()
+        for cid in prog.closures_of.get(body.id, []):
+            cb = prog.bodies[cid]
+            if cb.rec.get("alias_of", cid).split("@")[0] not in repr(val) and cid.split("@")[0] not in repr(val):
+                continue
+            out |= option_sources(cb, {"l": 0, "p": []}, 8)
+        return out
+
+    def option_sources(b, pl, depth):
+        out = set()
+        if depth <= 0 or pl is None:
+            return out
+        for bi, si, rv in b.defs().get(pl["l"], []):
+            if si == "term":
+                t = b.term(bi)
+                nm = strip_generics(mir.callee_name(t) or "")
+                if nm == "regex::Captures::get":
+                    v = G.describe(b, t["args"][1])
+                    if v.kind == "const":
+                        out.add(v.v)
+                elif nm.endswith(("Option::or_else", "Option::or")):
+                    out |= option_sources(b, mir.op_place(t["args"][0]), depth - 1)
+                    a1 = t["args"][1]
+                    p1 = mir.op_place(a1)
+                    if nm.endswith("or_else"):
+                        # the closure aggregate handed over
+                        for _b2, s2, rv2 in (b.defs().get(p1["l"], []) if p1 is not None else []):
+                            if s2 != "term" and rv2["k"] == "agg" and rv2.get("ak") == "closure":
+                                cid = rv2.get("closure")
+                                for k in prog.bodies:
+                                    if k == cid or prog.bodies[k].rec.get("alias_of") == cid:
+                                        out |= option_sources(prog.bodies[k], {"l": 0, "p": []}, depth - 1)
+                                        break
+                    else:
+                        out |= option_sources(b, p1, depth - 1)
+            elif rv["k"] == "use":
+                out |= option_sources(b, mir.op_place(rv["op"]), depth - 1)
+        return out
+
+    res = {"get_value": set(), "get_localized": set()}
+    for bi, t in body.calls():
+        nm = strip_generics(mir.callee_name(t) or "")
+        if not nm.endswith("Fn::call") or len(t["args"]) < 2:
+            continue
+        recv = repr(G.describe(body, t["args"][0]))
+        which = "get_value" if recv.endswith(".get_value") else ("get_localized" if recv.endswith(".get_localized") else None)
+        if which is None:
+            continue
+        # the argument tuple holds Match::as_str(<payload of an Option local>), possibly behind references / copies
+        def walk(pl, depth):
+            """places reached from `pl` going back through copies and references, up to the first call or projection"""
+            if pl is None or depth <= 0:
+                return
+            if pl["p"] and any(isinstance(e, dict) and "dc" in e for e in pl["p"]):
+                yield ("payload", pl)
+                return
+            for b3, s3, rv3 in body.defs().get(pl["l"], []):
+                if s3 == "term":
+                    yield ("call", body.term(b3))
+                elif rv3["k"] in ("ref", "rawptr"):
+                    yield from walk(rv3["place"], depth - 1)
+                elif rv3["k"] in ("use", "cast"):
+                    yield from walk(mir.op_place(rv3["op"]), depth - 1)
+                elif rv3["k"] == "agg":
+                    for o in rv3["ops"]:
+                        yield from walk(mir.op_place(o), depth - 1)
+
+        for kind, x in walk(mir.op_place(t["args"][1]), 8):
+            if kind != "call" or strip_generics(mir.callee_name(x) or "") != "regex::Match::as_str":
+                continue
+            for kind2, y in walk(mir.op_place(x["args"][0]), 8):
+                if kind2 == "payload":
+                    res[which] |= option_sources(body, {"l": y["l"], "p": []}, 8)
+                elif kind2 == "call" and strip_generics(mir.callee_name(y) or "").endswith(("Option::unwrap", "Option::expect")):
+                    res[which] |= option_sources(body, mir.op_place(y["args"][0]), 8)
+    return res
+
+
+def check_lookup_sources(ctx, rep, r):
+    """each macro form is looked up in its own table only: the text of the `$tag` / `${tag}` groups goes to the record lookup,
+    the text of the `$<key>` group to the localisation lookup - a name that happens to exist in the other table is not a hit"""
+    prog = ctx.prog
+    src = lookup_sources(prog)
+    if src is None or r is None:
+        rep.gap("dis_macro:lookup-sources", "-", "replace_append not found")
+        return
+    shape_of = {}
+    for c in r["captures"]:
+        if c["parent"] == 0:
+            p = c["pattern"]
+            shape_of[c["index"]] = "brace" if "\\{" in p or "\{" in p else ("angle" if "<" in p else "bare")
+    inner_shape = {}
+    for c in r["captures"]:
+        if c["parent"] in shape_of and not any(d["parent"] == c["index"] for d in r["captures"]):
+            inner_shape[c["index"]] = shape_of[c["parent"]]
+    tags = {i for i, sh in inner_shape.items() if sh in ("bare", "brace")}
+    keys = {i for i, sh in inner_shape.items() if sh == "angle"}
+    for which, want, other in (("get_value", tags, "localisation key"), ("get_localized", keys, "tag")):
+        got = src[which]
+        if got == want and got:
+            rep.ok("R-REGEX", "lookup-source:%s" % which, "-", "%s receives exactly the text of groups %s" % (which, sorted(got)))
+        else:
+            rep.bad("R-REGEX", "R-REGEX:lookup-source:%s" % which, "-", "%s receives the text of groups %s, expected exactly %s: a %s form is answered from the wrong table (or a form is never looked up)" % (which, sorted(got), sorted(want), other))
+
+
 def tag_group_indices(prog):
     """capture indices whose text is passed to get_value (the tag lookup): in replace_append, the Option produced by
     caps.get(i).or_else(|| caps.get(j)) that feeds (self.get_value)(..)"""
